@@ -205,3 +205,39 @@ func unsendablePings(rec *vr.Rec, reps int) {
 		_ = cc.Close()
 	}
 }
+
+// abandonedPing: a Ping whose caller gave up (its context ended) while the ping was still being written - the stream
+// peer had stopped reading for a while. The write completes later, the peer never answers: nothing of that ping may stay
+// registered on the connection.
+func abandonedPing(rec *vr.Rec, reps int) {
+	for rep := 0; rep < reps; rep++ {
+		c := map[string]any{"scenario": "Ping given up while its write was blocked; the write completes later, no pong ever comes", "transport": "tcp", "pings": 1 + rep%3}
+		sc := sim.NewScriptConn()
+		cc, err := sim.NewTCPConn(sc, sim.TCPOpts{})
+		if err != nil {
+			continue
+		}
+		sc.WaitWritten(1, 2*time.Second) // the connection's own capabilities message is out
+		sc.StallWrites(true)
+		for k := 0; k < 1+rep%3; k++ {
+			ctx, cancel := context.WithTimeout(context.Background(), 40*time.Millisecond)
+			perr := cc.Ping(ctx)
+			cancel()
+			if perr == nil {
+				rec.Violation("C13/tcp/ping/succeeded-without-pong", "", c)
+			}
+		}
+		sc.StallWrites(false)
+		sz := cc.VerifSizes()
+		sim.WaitFor(3*time.Second, func() bool {
+			sz = cc.VerifSizes()
+			return sz["token_handlers"] == 0
+		})
+		rec.Eval(fmt.Sprintf("abandoned-ping|%d", rep))
+		rec.Count("abandoned_ping_cases", 1)
+		if sz["token_handlers"] != 0 {
+			rec.Violation("C13/tcp/ping/abandoned-ping-leaves-token-handler", fmt.Sprintf("every Ping call has returned (deadline exceeded while its write was blocked), the writes have completed since, no pong will come: %s", sizesStr(sz)), c)
+		}
+		_ = cc.Close()
+	}
+}
